@@ -3,7 +3,7 @@
    blob signature.  The fact [r_ok] of an OwnerSign (22) request stands for: voucher with >= 1 entry whose chain
    verifies, to0d hash equals the hash in the blob, nonce = the one issued in this session, blob signed by the key the
    voucher's last entry names, accepted TTL non-zero.  The TTL / expiry arithmetic is checked on the implementation. *)
-From FDO Require Import Cbor.Typed Cose.Sign1 Fdo.Voucher Fdo.VoucherFacts Fdo.Server Fdo.ServerFacts.
+From FDO Require Import Cbor.Typed Cose.Sign1 Fdo.Voucher Fdo.VoucherFacts Fdo.Server Fdo.ServerFacts Fdo.Owner Fdo.OwnerFacts.
 Local Open Scope N_scope.
 
 (* a blob is stored only for a 22 passing every check, with the token of a TO0 session whose Hello was answered *)
@@ -46,6 +46,28 @@ Print Assumptions C06_chain.
 Theorem C06_owner_is_last : forall O_pubkey hdr l en, owner_key O_pubkey hdr (l ++ [en]) = entry_key O_pubkey en.
 Proof. exact owner_key_last. Qed.
 Print Assumptions C06_owner_is_last.
+
+(* what [r_ok] of a 22 means in bytes: the accepted body decodes to (to0d, to1d) where the to1d blob carries the hash of
+   the to0d as re-encoded, the voucher inside the to0d has at least one entry and its chain verifies, the blob is signed
+   by the key that chain ENDS in (the current owner, not an earlier one), the nonce is this session's and the requested
+   wait passed the deployment's policy (correspondence: kind srv.proof) *)
+Theorem C06_proof_bytes : forall O_der O_rfc O_verify O_hash O_pubkey nonce ttl_ok body,
+  owner_sign_ok O_der O_rfc O_verify O_hash O_pubkey nonce ttl_ok body = true ->
+  exists v0 hdr hm v3 ents wait tprot tun t0 halg hval tsig h tb e0 rest owner,
+    sdec O_der O_rfc ty_owner_sign body =
+      Ok (VList [VList [VList [v0; hdr; hm; v3; VList ents]; VInt wait; VBytes nonce];
+                 VList [VMap tprot; tun; VList [t0; VList [VInt halg; VBytes hval]]; VBytes tsig]]) /\
+    any_hash_of_alg halg = Some h /\
+    enc Sign1.enc_fuel ty_to0d (VList [VList [v0; hdr; hm; v3; VList ents]; VInt wait; VBytes nonce]) = Ok tb /\
+    O_hash h tb = hval /\
+    entries_of_vals ents = Some (e0 :: rest) /\
+    (exists r, verify_entries O_der O_rfc O_verify O_hash O_pubkey hdr hm (e0 :: rest) = Ok r) /\
+    owner_key O_pubkey hdr (e0 :: rest) = Ok owner /\
+    sign1_verify O_der O_rfc O_verify ty_to1d_payload TBytes owner tprot
+      (Some (VList [t0; VList [VInt halg; VBytes hval]])) None tsig (VBytes []) = Ok true /\
+    ttl_ok wait = true.
+Proof. exact owner_sign_sound. Qed.
+Print Assumptions C06_proof_bytes.
 
 Example C06_run :
   snd (run [] [mkreq 20 TInvalid true false false; mkreq 22 (TSess 0) false false false;
